@@ -1120,3 +1120,13 @@ class Rotate(om.ExplicitComponent):
                 partials["mesh", "in_mesh"][nn5:nn6] = -self.ref_axis_pos * d_dq_flat1
                 nn7 = nn6 + del_n
                 partials["mesh", "in_mesh"][nn6:nn7] = -self.ref_axis_pos * d_dq_flat2
+
+        else:
+            # No rotation about x: of the blocks coupling interior rows to the leading and trailing edge only the
+            # quarter chord direct contribution remains.
+            del_n = nn - 9 * ny
+            nn2 = nn + del_n
+            nn3 = nn2 + del_n
+            d_qch_od = np.tile(d_qch.flatten(), nx - 1)
+            partials["mesh", "in_mesh"][nn:nn2] = (1 - self.ref_axis_pos) * d_qch_od
+            partials["mesh", "in_mesh"][nn2:nn3] = self.ref_axis_pos * d_qch_od
